@@ -101,23 +101,19 @@ func worldPrefix() string {
 // shortEpochHistory: delegations move, pillar 3 is revoked in the first epoch, three epochs go by and are settled by the
 // pillar contract's Update. What a follower accepts must not depend on read-only consensus queries it answered on the way
 // (they touch the consensus module's caches of period and epoch points) nor on whether it was restarted after them.
-// shortEpochGapHistory: nobody produces during the last election tick of the second epoch (the momentum at height 9 is
-// the last one that epoch will ever hold; the next one opens the third epoch), and again from the middle of a later
-// epoch's third tick to the next epoch. A follower that is asked for the running epoch's statistics while the momentum
-// before such a gap is its frontier (batches end on multiples of 3) has computed that epoch's point before the epoch
-// was over; what it accepts afterwards (the pillar contract settles the epoch from those statistics) must not depend on it.
+// shortEpochGapHistory: production gaps at the tail of two epochs. The momentum at height 7 (first slot of the second
+// epoch) is the last one that epoch will ever hold: nobody produces for the remaining five slots and height 8 opens the
+// third epoch; height 10 closes the first election tick of the third epoch and nobody produces during its second tick.
+// The follower's batches end at heights 4, 7, 10, ... (the first momentum of a tick when no slot is skipped), so 7 and
+// 10 are frontiers at which it may be asked for the running epoch's statistics: it then computes that epoch's point
+// before the epoch is over, and what it accepts afterwards (the pillar contract settles the epoch from those statistics)
+// must not depend on having been asked.
 func shortEpochGapHistory() []ops.Op {
 	M := ops.Op{K: "M"}
-	h := []ops.Op{M, {K: "Call", S: "delegate", A: 2, B: 1}, M}
-	for i := 0; i < 6; i++ {
-		h = append(h, M)
-	}
-	h = append(h, ops.Op{K: "M", V: 3}) // height 10 opens the third epoch
-	for i := 0; i < 7; i++ {
-		h = append(h, M)
-	}
-	h = append(h, ops.Op{K: "M", V: 5})
-	for i := 0; i < 6; i++ {
+	h := []ops.Op{M, {K: "Call", S: "delegate", A: 2, B: 1}, M, M, M, M, M} // heights 2..7
+	h = append(h, ops.Op{K: "M", V: 5}, M, M)                               // 8 (slot 12), 9, 10
+	h = append(h, ops.Op{K: "M", V: 3})                                     // 11 (slot 18)
+	for i := 0; i < 8; i++ {
 		h = append(h, M)
 	}
 	return h
